@@ -19,6 +19,7 @@ ENTRIES = {
     "c01_pow": ("NoPanic.Entry", "entry_pow"),
     "c01_deref": ("NoPanic.Entry", "entry_deref"),
     "c01_aderef": ("NoPanic.Entry", "entry_aderef"),
+    "c01_firstchar": ("NoPanic.Entry", "entry_firstchar"),
 }
 TRUSTED = [
     "modelled, not verified (checked Gallina twins, debug-build overflow semantics): brush-parser/src/word.rs rule number() and "
@@ -64,6 +65,13 @@ KF = {
     "bracenest": "KF-C01-brace-backtracking",
     "bracealloc": "KF-C01-brace-range-alloc",
     "parennest": "KF-C01-paren-backtracking",
+    "caller": "KF-C01-caller-frame-overflow",
+    "mapfile": "KF-C01-mapfile-origin-overflow",
+    "fc": "KF-C01-fc-negate-overflow",
+    "ulimit": "KF-C01-ulimit-scale-overflow",
+    "readt": "KF-C01-read-timeout-overflow",
+    "complbrace": "KF-C01-complete-brace-in-cmdsubst",
+    "subscriptnest": "KF-C01-arith-subscript-backtracking",
 }
 
 # ------------------------------------------------------------------ running the harness (resumable)
@@ -456,6 +464,18 @@ def build_cores(ctx, rng):
         c.add(label=script[-60:], model=[("r%d" % cl[1]) if cl[0] == "r" else ("l%d" % cl[1]) for cl in cells],
               code=["sh", script, ""], canon=canon, nontrivial=len(cells) > 2)
     cores.append(c)
+    # ---- ${v^} / ${v,} / ${v@u}: pattern_to_first_char (the case mapping of the first character is an oracle input)
+    c = Core("firstchar")
+    for (val, op, pat) in G.firstchar_cases(rng, 400 if big else 220):
+        exp = "${x@u}" if op == "@u" else "${x%s%s}" % (op, pat or "")
+        script = "x='%s'; printf '%%s' \"%s\"" % (val, exp)
+
+        def canon(r):
+            return canon_sh(r, lambda st, out, err: "V" + out if st == 0 else "F")
+        c.add(label=script, model=None, oracle=["casemap", val], firstchar=(val, op, pat), code=["sh", script, ""], canon=canon,
+              nontrivial=bool(val) and ord(val[0]) > 127)
+    cores.append(c)
+
     c = Core("aderef")
     for (expr, scalars, arrays) in G.aderef_cases(rng, 160 if big else 70):
         script = G.aderef_script(expr, scalars, arrays, "echo $(( %s ))")
@@ -489,10 +509,13 @@ def run_cores(ctx, cores):
             oc = run_cases(ctx, [it["oracle"] for it in items])
             for it, line in zip(items, oc):
                 r = parse_api(line)
-                if r[0] == "OK":
-                    it["model"] = [r[1] if len(r) > 1 else "", r[2] if len(r) > 2 else ""]
+                up, lo = (r[1] if len(r) > 1 else "", r[2] if len(r) > 2 else "") if r[0] == "OK" else ("", "")
+                if it.get("firstchar"):
+                    val, op, pat = it["firstchar"]
+                    applicable = "0" if pat == "#" else "1"
+                    it["model"] = [val, applicable, lo if op == "," else up]
                 else:
-                    it["model"] = ["", ""]
+                    it["model"] = [up, lo]
         slow = any(it.get("timeout") for it in items)
         code = run_cases(ctx, [it["code"] for it in items], timeout_ms=(2500 if slow else 20000))
         entry = "c01_" + c.name
@@ -591,6 +614,8 @@ def panic_function(loc):
             return "library/alloc/src/string.rs"
         if re.search(r"tokio-[\d.]+/src/runtime/task/core.rs", loc or ""):
             return "tokio::runtime/task/core.rs"
+        if "library/core/src/time.rs" in (loc or "") or "library/std/src/time.rs" in (loc or ""):
+            return "std::time"
         if "library/alloc/src/raw_vec" in (loc or ""):
             return "library/alloc/src/raw_vec"
         return loc or "?"
@@ -630,6 +655,14 @@ KNOWN_EXPLORE = [
     (KF["strftime"], "library/alloc/src/string.rs", "a Display implementation returned an error unexpectedly",
      lambda s: "D{" in s or "HISTTIMEFORMAT" in s),
     (KF["bracealloc"], "library/alloc/src/raw_vec", "capacity overflow", lambda s: G.too_big(s)),
+    (KF["caller"], "brush-builtins/src/caller.rs::execute", "add with overflow",
+     lambda s: re.search(r"\bcaller\s+18446744073709551615\b", s)),
+    (KF["mapfile"], "brush-builtins/src/mapfile.rs::execute", "add with overflow",
+     lambda s: re.search(r"\b(mapfile|readarray)\b[^;|&]*-O\s*92233720368547758\d\d", s)),
+    (KF["fc"], "brush-builtins/src/fc.rs::resolve_position", "negate with overflow", lambda s: re.search(r"\bfc\b.*-9223372036854775808", s)),
+    (KF["ulimit"], "brush-builtins/src/ulimit.rs::set", "multiply with overflow", lambda s: re.search(r"\bulimit\b.*\d{16,}", s)),
+    (KF["readt"], "std::time", "Duration", lambda s: re.search(r"\bread\b[^;|&]*-t\s*\d{16,}", s)),
+    (KF["readt"], "std::time", "overflow when adding duration to instant", lambda s: re.search(r"\bread\b[^;|&]*-t\s*\d{16,}", s)),
     (KF["waitjob"], "tokio::runtime/task/core.rs", "JoinHandle polled after completion", lambda s: "&" in s and "wait" in s),
 ]
 _CHARHANG = re.compile(r"\{[A-Za-z]\.\.[A-Za-z]\.\.[+-]?(\d+)\}")
@@ -673,6 +706,8 @@ def known_hang(script):
         kids.append(KF["bracenest"])
     if re.search(r"(\(\s*){20,}", script):
         kids.append(KF["parennest"])
+    if re.search(r"(\w+\[){5,}", script):
+        kids.append(KF["subscriptnest"])
     if G.too_big(script):
         kids.append(KF["bracealloc"])     # the eager collect() of a huge range: allocation failure / no end in sight
     return prefer_open(kids)
@@ -827,10 +862,10 @@ def explore(ctx, rng, scale):
             specv.append(v)
         else:
             kid = known_hang(s)
-            if r[0] == "T" and not kid and not bash_terminates(s):
+            if r[0] == "T" and not (kid and is_open(kid)) and not bash_terminates(s):
                 st["nonterminating_in_bash_too_or_inconclusive"] += 1
                 continue
-            if r[0] == "T" and not kid and _LOOPWORD.search(s):
+            if r[0] == "T" and not (kid and is_open(kid)) and _LOOPWORD.search(s):
                 # a script-level loop that never ends because brush evaluates its condition differently from bash is a
                 # semantic deviation (other properties), not a hang of the shell: the same script with every loop body
                 # cut short by `break` must still hang to count here
@@ -840,7 +875,7 @@ def explore(ctx, rng, scale):
                     st["loop_divergence"] = st.get("loop_divergence", 0) + 1
                     st.setdefault("loop_divergence_samples", []).append(s[:300])
                     continue
-            if r[0] == "C" and not kid:
+            if r[0] == "C" and not (kid and is_open(kid)):
                 # the process died (abort / OOM / exit): confirm through the CLI binary
                 rr = run_vbrush(ctx, [s], timeout=20)[0]
                 if rr[0] == "R":
@@ -874,10 +909,10 @@ def explore(ctx, rng, scale):
         elif r[0] == "T":
             st["timeouts"] += 1
             kid = known_hang(s)
-            if not kid and not bash_terminates(s):
+            if not (kid and is_open(kid)) and not bash_terminates(s):
                 st["nonterminating_in_bash_too_or_inconclusive"] += 1
                 continue
-            if not kid and _LOOPWORD.search(s) and run_vbrush(ctx, [deloop(s)], timeout=10)[0][0] != "T":
+            if not (kid and is_open(kid)) and _LOOPWORD.search(s) and run_vbrush(ctx, [deloop(s)], timeout=10)[0][0] != "T":
                 st["loop_divergence"] = st.get("loop_divergence", 0) + 1
                 continue
             v = {"input": {"script": s[:4000], "via": "vbrush -c"}, "why": "no exit within 10 s although bash finishes"}
@@ -916,6 +951,8 @@ def explore(ctx, rng, scale):
             st["timeouts"] += 1
             v = {"input": {"entry_point": cse[0], "line": cse[1]}, "why": "did not finish / killed the process"}
             kid = known_hang(cse[1])
+            if not kid and cse[0] == "completeall" and re.search(r"\$\([^)]*\{[^{}]*\.\.[^{}]*\}", cse[1]):
+                kid = KF["complbrace"]
             if kid:
                 v["known"] = kid
             specv.append(v)
@@ -994,6 +1031,11 @@ def run(ctx):
         agree += 1
     t3 = time.time()
     ctx.notes.append("extraction cross-check %.0f s" % (t3 - t2))
+    summ = {}
+    for v in specv:
+        key = (v.get("known") or "UNKNOWN") + ": " + v.get("why", "")[:110]
+        summ[key] = summ.get(key, 0) + 1
+    ctx.notes.append("violation summary (class: why -> count): %s" % json.dumps(summ, ensure_ascii=False)[:6000])
     nontriv = sum(s["nontrivial"] for s in stats.values())
     samples = []
     for c in cores:
